@@ -197,6 +197,27 @@ pub fn run(tier: Tier, seed: u64) -> i32 {
             }
         }
     }
+    // LogNormal::from_zscore where exp(mu) alone is not representable but exp(mu + sigma*z) is
+    for &(m, s, z) in &[(800.0f64, 10.0f64, -20.0f64), (-800.0, 10.0, 20.0), (720.0, 5.0, -4.0), (-745.0, 2.0, 30.0), (709.0, 1.0, 0.5), (-708.0, -3.0, -5.0), (300.0, 0.5, 2.0)] {
+        evals += 1;
+        let g = LogNormal::<f64>::new(m, s).unwrap().from_zscore(z);
+        let a = m + s * z;
+        let e = a.exp();
+        let ok = g == e || ((g - e) / e).abs() <= 4.0 * f64::EPSILON * a.abs().max(1.0);
+        if !ok {
+            rep.violation("LogNormal<f64>::from_zscore|value".into(), format!("LogNormal::new({m},{s}).from_zscore({z:e}) = {g:e}, exp(mu + sigma*z) = {e:e}"), json!({"mu": m, "sigma": s, "z": z}));
+        }
+    }
+    for &(m, s, z) in &[(95.0f32, 10.0f32, -1.5f32), (-100.0, 8.0, 2.5), (88.0, 1.0, -0.5), (-95.0, -10.0, -2.0), (40.0, 0.5, 2.0)] {
+        evals += 1;
+        let g = LogNormal::<f32>::new(m, s).unwrap().from_zscore(z);
+        let a = m + s * z;
+        let e = a.exp();
+        let ok = g == e || ((g - e) / e).abs() <= 4.0 * f32::EPSILON * a.abs().max(1.0);
+        if !ok {
+            rep.violation("LogNormal<f32>::from_zscore|value".into(), format!("LogNormal::<f32>::new({m},{s}).from_zscore({z:e}) = {g:e}, exp(mu + sigma*z) = {e:e}"), json!({"mu": m, "sigma": s, "z": z}));
+        }
+    }
     rep.set("evaluations", json!(evals));
     rep.set("distinct_nontrivial", json!(pairs_nontrivial.len()));
     rep.set("rule", json!("paired executions (canonical parameters vs (location, scale)) on identical streams: base streams and every single deviation over the boundary lattice at the first positions; a (family, location, scale) triple whose samples differ from the canonical ones counts as one distinct non-trivial pair"));
